@@ -316,6 +316,11 @@ def x_c20(run):
     from .c20 import x_c20 as f
     f(run)
 
+CR_FAM = dict(family="cr", variant="asm", kview=kview_w, nontrivial=nontrivial_sess,
+              judge=j_and(j_orc("frame"), j_notes(r"NO-PROGRESS|BADCOUNT|READ-AFTER-EOF|SOURCE-ERROR-NOT-PASSED|NO-EOF", "compressing reader contract broken",
+                                                  "n<=len(p), progress, one valid frame, io.EOF, source error passed through")))
+HDR_FAM = dict(family="hdr", variant="asm", kview=lambda l: l.split(" ; ")[0].strip(), nontrivial=lambda c, i: "acc=" in i and not i.startswith("acc= "),
+               judge=j_notes(r"HDR-MISMATCH\S*", "header acceptance not exact", "accepted iff checksum byte right and block-size code in 4..7; distinct errors; Size unchanged"))
 SCHED = {"VERIF_SCHED": "1"}
 PROPS = {
     "C08": dict(runs=[FW("conc", judge=j_c08, env=SCHED), FR("frmut", judge=j_c08, env={"VERIF_SCHED": "2"}), FW("fwfail", judge=j_c08, env={"VERIF_SCHED": "3"})],
@@ -326,7 +331,7 @@ PROPS = {
     "C05": dict(runs=[FR("frmut", judge=j_c05), FR("fr", judge=j_c05)], theorems=T_C05),
     "C06": dict(runs=[FR("frtrunc", judge=j_c06)], theorems=T_C06 + T_C06r),
     "C07": dict(runs=[FR("frhost", judge=j_c07), FR("frmut", judge=j_c07)], theorems=T_C07 + T("C19", "c19_bad_magic") + T("C08", "R.progress", "R.terminates", "R.noleak")),
-    "C09": dict(runs=[FW("fw", judge=j_c09)], theorems=T_C09 + T_C09leg),
+    "C09": dict(runs=[FW("fw", judge=j_c09), CR_FAM], theorems=T_C09 + T_C09leg + T_C18),
     "C15": dict(runs=[FW("fwfail", judge=j_c15w), FR("frfail", judge=j_c15r)], theorems=T_C15 + T_C15r),
     "C16": dict(runs=[FR("fr", judge=j_c16)], theorems=T("C16", "c16_writeTo", "c16_read", "c16_read_no_error", kind=_K64)),
     "C17": dict(runs=[FW("fwlife", judge=j_c17w), FR("fr", judge=j_c17r)], theorems=T_C17),
@@ -335,15 +340,12 @@ PROPS = {
     "C04": dict(runs=[dict(DEC_ASM, judge=j_c04), dict(DEC_GO, judge=j_c04)], theorems=T_GO + T_ASM),
     "C10": dict(runs=[dict(CMP, judge=j_c10)], theorems=T("C01fast", "c11_fast") + T("C01hc", "c11_hc")),
     "C11": dict(runs=[dict(CMP, judge=j_c11)], theorems=T("C01fast", "c11_fast") + T("C01hc", "c11_hc")),
-    "C18": dict(runs=[dict(family="cr", variant="asm", kview=kview_w, nontrivial=nontrivial_sess,
-                           judge=j_and(j_orc("frame"), j_notes(r"NO-PROGRESS|BADCOUNT|READ-AFTER-EOF|SOURCE-ERROR-NOT-PASSED|NO-EOF", "compressing reader contract broken",
-                                                               "n<=len(p), progress, one valid frame, io.EOF, source error passed through")))], theorems=T_C18),
-    "C19": dict(runs=[dict(family="hdr", variant="asm", kview=lambda l: l.split(" ; ")[0].strip(), nontrivial=lambda c, i: "acc=" in i and not i.startswith("acc= "),
-                      judge=j_notes(r"HDR-MISMATCH\S*", "header acceptance not exact", "accepted iff checksum byte right and block-size code in 4..7; distinct errors; Size unchanged"))],
-               theorems=T_C19, exhaustive_thorough=True),
+    "C18": dict(runs=[CR_FAM], theorems=T_C18),
+    "C19": dict(runs=[HDR_FAM], theorems=T_C19, exhaustive_thorough=True),
     "C12": dict(runs=[dict(DEC_ASM, judge=j_c12), dict(DEC_GO, judge=j_c12)], extra=[x_c12],
                 theorems=T_C12 + T("C04go", "c04_go_partial") + T("C03asm", "c04_asm_partial")),
-    "C13": dict(runs=[dict(XXH, judge=j_c13)], extra=[x_c13_4g], theorems=T("C13", "oneshot", "stream", "stream_reset")),
+    "C13": dict(runs=[dict(XXH, judge=j_c13), FW("fwck", judge=j_c09), HDR_FAM], extra=[x_c13_4g],
+                theorems=T("C13", "oneshot", "stream", "stream_reset") + T("C19", "c19_accept_iff", "c19_spec") + T("C09", "c09_writer")),
     "C14": dict(runs=[dict(CMP, judge=j_c14b), FW("conc", judge=j_c08, env={"VERIF_SCHED": "4"}), FW("fw", judge=j_c02w, env={"VERIF_SCHED": "5"})],
                 extra=[x_c14_groups], theorems=T_C14 + T("C08", "W.order_final")),
 }
